@@ -7,7 +7,7 @@ CONSTANTS
  Ns = {2}
  MsgVecs <- MV23
  CCoins <- AllZq
- SCoins <- C4a
+ SCoins <- C2b
  Tamper = FALSE
  PowM <- TabPowM
 INVARIANTS Correct HonestAbort Refusal OneOnly Curious CuriousPairs
